@@ -164,6 +164,24 @@ def _iteration(ctx: Ctx, c: Collector, holder: str, heap: str) -> None:
     _loop_guard(ctx, c, s, fi, sim, world, cur, POP, STEP)
 
 
+def _is_max_of(x, sub) -> bool:
+    """max(sub) / max(sub, default=0) / max(t for t in sub), as a call or as an aggregate"""
+    if x[0] == "call" and x[1] == T.glob("max") and len(x[2]) == 1:
+        a = T.strip(x[2][0])
+        kw = dict(x[3])
+        if kw and (set(kw) != {"default"} or kw["default"] != T.const(0)):
+            return False
+        if a == sub:
+            return True
+        x = ("agg", "max", a, ())
+    if x[0] == "agg" and x[1] == "max":
+        a = T.strip(x[2])
+        if a == sub:
+            return True
+        return a[0] == "bag" and len(a[1]) == 1 and len(a[1][0][3]) == 1 and T.strip(a[1][0][3][0][2]) == sub and a[1][0][1] == a[1][0][3][0][1] and not a[1][0][2]
+    return False
+
+
 def _fixed_tiers_only(gt, tiers) -> bool:
     """every reading of `tiers` inside the guard is `tiers[<one position>]` (or `len(tiers)`): no aggregate over the sub-tiers"""
     fixed = 0
@@ -228,6 +246,10 @@ def _loop_guard(ctx, c, s, fi, sim, world, cur, POP, STEP) -> None:
         pr.append("the guard requires all sub-tiers to exceed the bound (any tier must suffice)")
     elif gt[0] == "not" and gt[1][0] == "agg" and T.contains(gt, bound):
         pr.append("the loop guard is negated: runs abort unless some sub-step counter has reached the bound")
+    elif gt[0] == "cmp" and gt[1] in ("<", "<=") and gt[2] == bound and _is_max_of(T.strip(gt[3]), sub):
+        # `max(sub-tiers) >= bound` is `any(t >= bound ...)`; with `>` one more sub-step than max_loop_iterations is performed
+        if gt[1] == "<":
+            pr.append("the guard uses > instead of >=: one more sub-step than max_loop_iterations is performed")
     elif _fixed_tiers_only(gt, tiers):
         # every reading of the step's tiers in the guard is one fixed position (tiers[1], tiers[-1], ...): groups nest to any
         # depth, and the loop counts in the tier of the group that carries the weak connection, which is any of tiers[1:]
